@@ -277,7 +277,52 @@ func jsonTreeEqual(v any, j any) string {
 	return ""
 }
 
+// a derived list whose embedded List was never set: every method, serialisation included, panics with a nil
+// dereference. Used to check that a panic in the middle of String() leaves nothing behind.
+type holeList struct{ List }
+
+func c02AfterPanic(c *oracleCtx) {
+	for _, shape := range []string{"list", "object", "nested"} {
+		shape := shape
+		c.check("after-panic:"+shape, true, func() string {
+			inner := NewList(1, "two", NewList(3))
+			var root any
+			var plug func(v any)
+			switch shape {
+			case "list":
+				l := NewList("a", inner, "slot", NewObject("k", inner))
+				root, plug = l, func(v any) { l.Replace(2, v) }
+			case "object":
+				o := NewObject("a", 1, "slot", 0, "in", inner)
+				root, plug = o, func(v any) { o.Set("slot", v) }
+			default:
+				o := NewObject("x", NewList(inner, NewObject("slot", 0)))
+				root, plug = o, func(v any) { o.GetList("x").GetObject(1).Set("slot", v) }
+			}
+			plug("ok")
+			want := serial(root)
+			plug(&holeList{})
+			if !catch(func() { serial(root) }) {
+				return ""
+			}
+			plug("ok")
+			got := ""
+			if catch(func() { got = serial(root) }) {
+				return "String() panics on a repaired, acyclic container after an earlier String() panicked half-way"
+			}
+			if got != want {
+				return fmt.Sprintf("String() after a recovered panic gives %q, want %q", got, want)
+			}
+			if catch(func() { got = serial(inner) }) || !json.Valid([]byte(got)) {
+				return "String() of a nested container is affected by an earlier panic"
+			}
+			return ""
+		})
+	}
+}
+
 func c02Oracle(c *oracleCtx) {
+	c02AfterPanic(c)
 	c.rule = "same tree set as C01; String() is handed to encoding/json (Valid + Decoder.UseNumber) and the decoded tree compared structurally"
 	c.bound = "B-RT tree set (see C01)"
 	for _, ts := range treeSpecs(c) {
@@ -606,6 +651,18 @@ func c20Oracle(c *oracleCtx) {
 		{"str-newline-list", "[%n\"ab%ncd\\\"e%nf\",%n", `tru,`, 3, `1]`},
 		{"str-newline-obj", "{\"k\":%n\"v%nw\",\"o\":{\"s\":\"%nx%ny\"},%n", `x`, 0, `"b":2}`},
 		{"key-newline-obj", "{\"k%nk\":1,%n", `x`, 0, `"b":2}`},
+		// a backslash directly followed by a raw newline inside a string / key (the newline still counts)
+		{"str-bs-newline-list", "[\"ab\\%ncd\",%n", `tru,`, 3, `1]`},
+		{"str-bs-newline-obj", "{\"k\":\"v\\%nw\",%n", `x`, 0, `"b":2}`},
+		{"key-bs-newline-obj", "{\"k\\%nk\":{%n", `x`, 0, `"b":2}}`},
+		// carriage returns are not line breaks: lone CR, CR LF
+		{"cr-list", "[\r1,\r%n2,\r\r", `tru,`, 3, `1]`},
+		{"cr-obj", "{\r\"a\":1,\r%n\r", `x`, 0, `"b":2}`},
+		{"cr-in-string", "[\"a\rb\",%n\r", `nul,`, 3, `1]`},
+		{"crlf-obj", "{\r\n\"a\":1,\r\n%n", `x`, 0, `"b":2}`},
+		// other Unicode line separators are not line breaks either
+		{"nel-ls-list", "[\"\u0085\u2028\u2029\",\u2028%n", `tru,`, 3, `1]`},
+		{"vt-ff-list", "[\v\f%n", `tru,`, 3, `1]`},
 	}
 	nls := []string{"", "\n", "\n\n", " \n \n\n"}
 	for _, t := range tpls {
@@ -655,7 +712,7 @@ func c20Oracle(c *oracleCtx) {
 	// through ParseFile
 	dir, _ := os.MkdirTemp("", "verif-c20-")
 	defer os.RemoveAll(dir)
-	for i, doc := range []string{"\n\n{\"a\":\n x}", "\n \n\n{\n\"a\":1,\n;}", "{\"a\":[1,\n2,\ntru,3]}"} {
+	for i, doc := range []string{"\n\n{\"a\":\n x}", "\n \n\n{\n\"a\":1,\n;}", "{\"a\":[1,\n2,\ntru,3]}", "\r\r{\r\"a\":\r x}", "\n\n\n  {\"a\":1,\n\n x}\n\n"} {
 		i, doc := i, doc
 		c.check(fmt.Sprintf("file:%d", i), true, func() string {
 			fp := filepath.Join(dir, fmt.Sprintf("e%d.json", i))
